@@ -9,12 +9,27 @@
 #include <signal.h>
 #include <algorithm>
 #include <functional>
+#include <xalanc/XPath/Function.hpp>
+#include <xalanc/XPath/XObjectFactory.hpp>
 #include <xercesc/util/XMLUni.hpp>
 
 using namespace sim;
 using namespace xalanc;
 
 namespace {
+
+// an external function to install (installing it again under the same name replaces the installed clone)
+class FunctionSq19 : public Function {
+public:
+    XObjectPtr execute(XPathExecutionContext& ctx, XalanNode* context, const XObjectArgVectorType& args, const Locator* locator) const override {
+        if (args.size() != 1) generalError(ctx, context, locator);
+        double v = args[0]->num(ctx); return ctx.getXObjectFactory().createNumber(v * v);
+    }
+    using Function::execute;
+    FunctionSq19* clone(MemoryManager& m) const override { return XalanCopyConstruct(m, *this); }
+protected:
+    const XalanDOMString& getError(XalanDOMString& r) const override { r.assign("ext:sq() takes one argument"); return r; }
+};
 
 struct OpOut { uint64_t allocs = 0; int status = 0; bool threw = false; std::string exc; uint64_t outHash = 0; size_t outLen = 0; bool errEmpty = false; bool ran = false; std::string out; };
 
@@ -87,6 +102,10 @@ struct Scenario {
             T->setStylesheetParam("P2", 17.0);
         } else if (k == "clear-params") {
             T->clearStylesheetParams();
+        } else if (k == "install-fn") {
+            T->installExternalFunction(XalanDOMString("urn:x-ext", mm), XalanDOMString("sq", mm), FunctionSq19());
+        } else if (k == "uninstall-fn") {
+            T->uninstallExternalFunction(XalanDOMString("urn:x-ext", mm), XalanDOMString("sq", mm));
         }
         if (o.status != 0 && T) { const char* e = T->getLastError(); o.errEmpty = !(e && *e); }
     }
@@ -308,7 +327,7 @@ struct C19 : public Driver {
             }
             else if (r == 8) { Json& o = op("destroy-ss"); o["i"] = (int)g.below(4); }
             else if (r == 9) { Json& o = op("destroy-src"); o["i"] = (int)g.below(4); }
-            else if (r == 10) op("param");
+            else if (r == 10) { if (g.chance(1, 2)) op("param"); else { op("install-fn"); if (g.chance(2, 3)) op("install-fn"); if (g.chance(1, 3)) op("uninstall-fn"); } }
             else { op("delete"); op("new"); }
         }
         if (g.chance(1, 3)) op("delete");
